@@ -12,7 +12,10 @@ import (
 	"strings"
 	"net"
 	"sync"
+	"sync/atomic"
+	"syscall"
 	"time"
+	"unsafe"
 
 	"github.com/cenkalti/backoff/v4"
 	"github.com/gebn/bmc"
@@ -25,9 +28,42 @@ var useUDP bool
 const udpAttemptTimeout = 200 * time.Millisecond
 
 type udpRelay struct {
-	conn *net.UDPConn
-	done chan struct{}
-	mu   sync.Mutex
+	conn      *net.UDPConn
+	done      chan struct{}
+	mu        sync.Mutex
+	got, seen atomic.Int64 // datagrams taken off the socket / completely handled
+}
+
+var curRelay *udpRelay
+
+// udpSettle waits until the relay has handled every datagram the library has transmitted so far. (A call can return
+// while its last transmission is still in the relay's socket queue — when the reply it accepted was already queued on
+// its own socket; what was transmitted is only complete once the relay has seen it. On loopback a datagram is in the
+// receiver's queue when the sender's write returns.)
+func udpSettle() {
+	r := curRelay
+	if r == nil {
+		return
+	}
+	pending := func() int {
+		n := 0
+		if rc, err := r.conn.SyscallConn(); err == nil {
+			rc.Control(func(fd uintptr) {
+				syscall.Syscall(syscall.SYS_IOCTL, fd, 0x541B /* FIONREAD */, uintptr(unsafe.Pointer(&n)))
+			})
+		}
+		return n
+	}
+	quiet := 0
+	for i := 0; i < 5000 && quiet < 2; i++ {
+		if pending() > 0 || r.got.Load() != r.seen.Load() {
+			quiet = 0
+			time.Sleep(200 * time.Microsecond)
+			continue
+		}
+		quiet++
+		time.Sleep(time.Millisecond)
+	}
 }
 
 func (r *udpRelay) close() { r.conn.Close(); <-r.done }
@@ -43,6 +79,7 @@ func newTransport(send bmc.VerifSendFunc, timeout time.Duration) (*bmc.V2Session
 		panic("udp relay: " + err.Error())
 	}
 	r := &udpRelay{conn: c, done: make(chan struct{})}
+	curRelay = r
 	go func() {
 		buf := make([]byte, 4096)
 		for {
@@ -51,13 +88,23 @@ func newTransport(send bmc.VerifSendFunc, timeout time.Duration) (*bmc.V2Session
 				close(r.done)
 				return
 			}
+			r.got.Add(1)
 			p := append([]byte(nil), buf[:n]...)
 			r.mu.Lock()
 			reply, err := send(context.Background(), p)
 			r.mu.Unlock()
 			if err == nil {
 				c.WriteToUDP(append([]byte(nil), reply...), addr)
+				// a burst: further datagrams the BMC side emits right behind this reply (duplicates, delayed replies to
+				// earlier commands); they queue up in the library's socket
+				if extra, ok := burstAfter[hx(reply)]; ok {
+					delete(burstAfter, hx(reply))
+					for _, x := range extra {
+						c.WriteToUDP(x, addr)
+					}
+				}
 			}
+			r.seen.Add(1)
 		}
 	}()
 	t, err := bmc.DialV2(c.LocalAddr().String(), bmc.WithTimeout(udpAttemptTimeout))
@@ -76,7 +123,64 @@ func inUDP(ex func([]string) (string, string)) func([]string) (string, string) {
 	}
 }
 
+// Bursts. A raw script item `R:a+R:b+…` makes the relay answer one transmission with several datagrams. The socket is a
+// FIFO: every attempt reads the OLDEST datagram not yet read (or times out when there is none), so what attempt i sees
+// is determined by the raw script alone — queueScript computes it, and the very same computation is done on the Lean
+// side (`Driver.queueScript`). The scenario's send function is driven with the first datagram of each item; the
+// reference verdicts and the model are given the delivered script.
+var (
+	burstAfter  = map[string][][]byte{}
+	driveScript []string // when non-nil: what the scripted send functions answer with, instead of the op's script
+)
+
+func queueScript(raw []string) (delivered, firsts []string) {
+	var q []string
+	for _, it := range raw {
+		if it != "L" {
+			ds := strings.Split(it, "+")
+			q = append(q, ds...)
+			firsts = append(firsts, ds[0])
+		} else {
+			firsts = append(firsts, "L")
+		}
+		if len(q) == 0 {
+			delivered = append(delivered, "L")
+		} else {
+			delivered = append(delivered, q[0])
+			q = q[1:]
+		}
+	}
+	return
+}
+
+func inBurst(ex func([]string) (string, string), scriptArg int) func([]string) (string, string) {
+	return inUDP(func(a []string) (string, string) {
+		if len(a) <= scriptArg || a[scriptArg] == "-" {
+			return "bad-op", ""
+		}
+		raw := strings.Split(a[scriptArg], ",")
+		delivered, firsts := queueScript(raw)
+		burstAfter = map[string][][]byte{}
+		for _, it := range raw {
+			if ds := strings.Split(it, "+"); len(ds) > 1 {
+				var extra [][]byte
+				for _, d := range ds[1:] {
+					extra = append(extra, unhx(strings.TrimPrefix(d, "R:")))
+				}
+				burstAfter[hx(unhx(strings.TrimPrefix(ds[0], "R:")))] = extra
+			}
+		}
+		driveScript = firsts
+		defer func() { driveScript = nil; burstAfter = map[string][][]byte{} }()
+		b := append([]string(nil), a...)
+		b[scriptArg] = strings.Join(delivered, ",")
+		return ex(b)
+	})
+}
+
 func init() {
+	executors["sendb"] = inBurst(func(a []string) (string, string) { return execSend(a) }, 14)
+	executors["slsendb"] = inBurst(func(a []string) (string, string) { return execSlSend(a) }, 6)
 	executors["sendu"] = inUDP(func(a []string) (string, string) { return execSend(a) })
 	executors["slsendu"] = inUDP(func(a []string) (string, string) { return execSlSend(a) })
 	executors["hsu"] = inUDP(func(a []string) (string, string) { return execHs(a) })
@@ -116,6 +220,49 @@ func genUDP(g *genCtx) {
 			}
 			op.Kind = name + "u"
 			g.emit(op)
+			// a burst variant: behind one of the replies a second datagram (a duplicate, or another reply of the script)
+			// follows at once; one more lost item at the end so that the script is as long as what gets delivered
+			if name == "hs" || g.rng.Intn(2) == 0 {
+				continue
+			}
+			si := map[string]int{"send": 14, "slsend": 6}[name]
+			if len(op.Args) <= si || op.Args[si] == "-" || strings.Contains(op.Args[si], "!") {
+				continue
+			}
+			items := strings.Split(op.Args[si], ",")
+			var rs []int
+			for i, it := range items {
+				if strings.HasPrefix(it, "R:") && len(it) > 2 {
+					rs = append(rs, i)
+				}
+			}
+			if len(rs) == 0 {
+				continue
+			}
+			at := rs[g.rng.Intn(len(rs))]
+			if g.rng.Intn(2) == 0 {
+				at = rs[len(rs)-1] // behind the last reply: what is left queued when the call returns
+			}
+			extra := items[rs[g.rng.Intn(len(rs))]]
+			if hx(unhx(items[at][2:])) == hx(unhx(extra[2:])) && g.rng.Intn(2) == 0 && len(extra) > 8 {
+				extra = extra[:len(extra)-2] + "5a" // a near-duplicate
+			}
+			// the relay keys bursts by the reply bytes: keep that reply unique in the script
+			uniq := true
+			for i, it := range items {
+				if i != at && it == items[at] {
+					uniq = false
+				}
+			}
+			if !uniq {
+				continue
+			}
+			bi := append([]string(nil), items...)
+			bi[at] = bi[at] + "+" + extra
+			bi = append(bi, "L")
+			bop := Op{Class: op.Class, NonTrivial: true, Kind: name + "b", Args: append([]string(nil), op.Args...)}
+			bop.Args[si] = strings.Join(bi, ",")
+			g.emit(bop)
 		}
 	}
 }
